@@ -47,6 +47,8 @@ var c04Probes = []struct {
 	{"same-text-closures-capturing-constant", []string{`mk = func(N) { func(x) { x + N } }`, `a1 = mk(1)`, `a2 = mk(2)`, `println(a1(5))`, `println(a2(5))`}},
 	{"same-text-closures-capturing-function", []string{`mk = func(fn) { func(x) { fn(x) } }`, `d1 = mk(x => x * 2)`, `d2 = mk(x => x * 3)`, `println(d1(5))`, `println(d2(5))`}},
 	{"cached-caller-of-redefined-callee", []string{`func g(x) { x + 1 }`, `func f(x) { g(x) }`, `println(f(1))`, `func g(x) { x + 2 }`, `println(f(1))`}},
+	{"negative-zero-argument-shares-entry-with-zero", []string{`func inv(x) { 1 / x }`, `println(inv(0.0))`, `println(inv(-0.0))`}},
+	{"variadic-array-argument-key", []string{`func va(a, ..) { .. }`, `println(va(1, [[2, 3]]))`, `println(va(1, [2, 3]))`}},
 	{"cached-reader-of-deleted-constant", []string{`LIM = 5`, `func f(x) { x + LIM }`, `println(f(1))`, `del(LIM)`, `LIM = 7`, `println(f(1))`}},
 }
 
